@@ -12,7 +12,7 @@ PROPERTY = "C04"
 RULE = ("rows:<class>: for every fitted registry class with row-wise semantics Hypothesis draws a configuration, a training set, a query "
         "batch that contains training rows, duplicated rows, new rows and far-away rows (rows in discretizer cells / leaves / clusters "
         "unseen at training time), and index sets: a permutation, a sub-batch and every single row (batches of up to 32 rows). Oracle (metamorphic): for every public "
-        "method, f(batch)[idx] == f(batch[idx]); f(batch) twice agree exactly and the array returned first keeps its values while the other batches go through the model; pickle.loads(pickle.dumps(model)) answers exactly the same; "
+        "method, f(batch)[idx] == f(batch[idx]); f(batch) twice agree exactly, a batch edited in place and passed again as the same object is answered for its new content, and the array returned first keeps its values while the other batches go through the model; pickle.loads(pickle.dumps(model)) answers exactly the same; "
         "clone_with_fitted_parameters(model) either refuses in its documented way (RuntimeError for callable attributes) or answers exactly "
         "the same and leaves the original untouched. ConstraintKMeans(balanced_predictions=True) is the documented exception and is "
         "excluded. Non-trivial: a non-identity permutation or a sub-batch dropping rows, with >= 2 distinct output rows. Distinct by case JSON.")
@@ -145,6 +145,25 @@ def check_rows(case):
             part = entry.call(est, meth, R.subset(Qm, idx))
             d = _same(np.asarray(full)[idx], part, False)
             require(d is None, "rows:%s:%s" % (kind, meth), "%s(batch)[idx] != %s(batch[idx]) for idx=%r: %s" % (meth, meth, idx[:8], d), dict(f2, index_kind=kind))
+        if isinstance(Qm, np.ndarray) and Qm.ndim == 2 and mm >= 2:
+            # the caller edits its batch in place between two calls and passes the SAME array object again (what permutation importance
+            # does): the answer follows the content, not the identity of the object
+            pidx = [i for i in perm if i < mm]
+            Qw = Qm.copy()
+            entry.call(est, meth, Qw)
+            Qw[:] = Qm[pidx]
+            second = entry.call(est, meth, Qw)
+            d = _same(np.asarray(full)[pidx], second, False)
+            require(d is None, "repeat:same-object-edited-in-place:" + meth, "%s on an array edited in place after a first call: %s" % (meth, d), f2)
+        if name in ("PiecewiseRegressor", "PiecewiseClassifier") and meth == methods[0] and case.get("process_backend"):
+            # the caller has a process-based joblib backend active (prefer="threads" is only a hint, a backend context overrides it):
+            # same answers as without it
+            import joblib
+            with joblib.parallel_backend("multiprocessing", n_jobs=2):
+                inside = entry.call(est, meth, Q)
+            d = _same(full, inside, True)
+            require(d is None, "backend:process-based:" + meth, "%s under joblib.parallel_backend('multiprocessing') differs from the plain call: %s" % (meth, d), f2)
+            labels.append("process-backend")
         d = _same(full, kept, True)
         require(d is None, "repeat:earlier-result-overwritten", "the array %s returned for the batch changed while other batches were sent through the same model: %s" % (meth, d), f2)
         if len(np.unique(np.asarray(full).reshape(len(full), -1).astype(str), axis=0)) >= 2 and (perm != list(range(m)) or len(sub) < m):
@@ -195,7 +214,7 @@ def _cases(draw, name, tier="quick"):
     k = 16
     return dict(cls=name, spec=spec, data=data, extra=extra, seed=draw(st.integers(0, 2**31 - 10)),
                 perm=[draw(st.integers(0, 40)) for _ in range(k)], sub=[draw(st.integers(0, 40)) for _ in range(draw(st.integers(1, 6)))],
-                singles=[draw(st.integers(0, 40)) for _ in range(2)])
+                singles=[draw(st.integers(0, 40)) for _ in range(2)], process_backend=draw(st.integers(0, 3)) == 0)
 
 
 def _clause(name):
